@@ -2971,7 +2971,7 @@ struct Explorer {
         s.set("exit", r.exit_code);
         samples.push_back(s);
       }
-      if (op.crash && (Want("C07") || Want("C08") || Want("C09")) && !r.hang && !r.horizon) {
+      if (op.crash && (Want("C07") || Want("C08") || Want("C09") || Want("C04")) && !r.hang && !r.horizon) {
         // every crash point of this schedule; for write operations with and without a torn part
         for (uint64_t k = 0; k < r.ops; ++k) {
           for (int tear : {-1, 7}) {
@@ -3034,6 +3034,9 @@ struct Explorer {
               x.detail = "an I/O error at mutating operation " + to_string(k) + " makes ninja hang or report 'stuck'";
               fv.push_back(x);
             }
+            // what is started after a failed operation still finds its directories and its response file (a write error
+            // that shows only when the file is closed must not be swallowed)
+            if (Want("C04") && !rf.hang && !rf.horizon) CheckOrder(rf, &fv);
             // (one fault per history for I/O errors: an error on top of the debris of an earlier kill is a double fault)
             if (Want("C09") && !rf.hang && !rf.horizon && !w.abnormal)
               CheckDepsLogSurvivesFault(op, w.disk, df, "mutating operation " + to_string(k) + " fails with an I/O error (exit " + to_string(rf.exit_code) + ")", &fv);
